@@ -1827,7 +1827,8 @@ class _GroupElem(ABC):
         dim = self.__dim
         connect = self._global_to_local_nodes[self.connect]
 
-        tol = 1e-12
+        # distances are compared up to the round-off of the coordinates, which grows with them
+        tol = 1e-12 * max(1.0, np.abs(self.coord[connect[elem]]).max())
 
         if dim == 0:
             coord = self.coord[connect[elem, 0]]
@@ -2238,7 +2239,7 @@ class _GroupElem(ABC):
         else:
             xn, yn, zn = coordinates_n.T
             xe, ye, ze = coordElem.T
-            tol = 1e-12
+            tol = 1e-12 * max(1.0, np.abs(coordElem).max())
 
             idx = np.where(
                 (xn >= np.min(xe) - tol)
